@@ -153,7 +153,7 @@ def prefixed_modrm_cases(isa, spec, tier):
     Mod, RM, REG = mr
     nb = fs.nbits // 8
     full = tier == "thorough"
-    prefixes = [p for p in (X86_PREFIXES_T if full else X86_PREFIXES_Q + [b"\x41"]) if p]
+    prefixes = [p for p in (X86_PREFIXES_T if full else X86_PREFIXES_Q + [b"\x41", b"\x66\x48"]) if p]
     forms = [(1, 4), (2, 4), (0, 5), (3, 0)] if full else [(1, 4), (0, 5)]
     for p in prefixes:
         for (mod, rm) in forms:
